@@ -366,12 +366,96 @@ fn run_ring(r: &mut Rng, req: u32, flags_bits: u32, ops_target: u64, rep: &mut R
     true
 }
 
+/// SQPOLL ring on the real kernel, sq_thread_idle = 1 ms: after 20 ms of silence the poll thread
+/// sleeps.  The application then submits the way io_uring_enter(2) prescribes for such rings: fill,
+/// flush, and enter with IORING_ENTER_SQ_WAKEUP only if the wrapper's `needs_wakeup()` says so.
+/// The entry has to complete.  A miss is decided by a probe: the harness itself enters with
+/// SQ_WAKEUP; if the completion arrives now, the thread was asleep while the wrapper said "awake".
+fn real_sqpoll_idle(rep: &mut Rep, rounds: u64) {
+    use std::time::{Duration, Instant};
+    let mut ring = match setup_io_uring(4, IoUringParamFlags::IORING_SETUP_SQPOLL, 0, 1) {
+        Ok(r) => r,
+        Err(_) => {
+            vh::count("real_sqpoll_rings_skipped_setup_refused", 1);
+            return;
+        }
+    };
+    let wait = |ring: &mut IoUring, ms: u64| -> Option<u64> {
+        let end = Instant::now() + Duration::from_millis(ms);
+        loop {
+            if let Some(c) = ring.get_next_cqe() {
+                return Some(c.0.user_data);
+            }
+            if Instant::now() >= end {
+                return None;
+            }
+            std::thread::sleep(Duration::from_millis(1));
+        }
+    };
+    let (mut said_yes, mut said_no_completed) = (0u64, 0u64);
+    for round in 0..rounds {
+        std::thread::sleep(Duration::from_millis(20));
+        let ud = SEQ_BASE + 0x5900 + round;
+        let Some(ptr) = ring.get_next_sqe_slot() else {
+            vh::inconclusive("real sqpoll: no free submission slot");
+            return;
+        };
+        unsafe {
+            ptr.write(IoUringSubmissionQueueEntry::new_close(Fd::try_new(BAD_FD).unwrap(), ud, IoUringSQEFlags::empty()));
+        }
+        ring.flush_submission_queue();
+        let nw = ring.needs_wakeup();
+        if nw {
+            said_yes += 1;
+            if let Err(e) = io_uring_enter(ring.fd, 0, 0, IoUringEnterFlags::IORING_ENTER_SQ_WAKEUP) {
+                vh::inconclusive(&format!("real sqpoll: io_uring_enter(SQ_WAKEUP) failed: {e:?}"));
+                return;
+            }
+        }
+        let t0 = Instant::now();
+        match wait(&mut ring, 1000) {
+            Some(got) if got == ud => {
+                if !nw {
+                    said_no_completed += 1;
+                }
+            }
+            Some(got) => {
+                rep.viol("C17/sqpoll/real-kernel-wrong-completion", 4, 4, 2, &format!("round {round}"),
+                    &format!("submitted user_data {ud:#x}, next completion carries {got:#x}"));
+                return;
+            }
+            None if nw => {
+                vh::inconclusive("real sqpoll: no completion within 1 s although the poll thread was woken");
+                return;
+            }
+            None => {
+                // the wrapper said no wakeup is needed and nothing happened for 1 s; is the thread asleep?
+                let _ = io_uring_enter(ring.fd, 0, 0, IoUringEnterFlags::IORING_ENTER_SQ_WAKEUP);
+                let t1 = Instant::now();
+                match wait(&mut ring, 1000) {
+                    Some(got) if got == ud => {
+                        rep.viol("C17/sqpoll/idle-poll-thread-not-woken", 4, 4, 2, &format!("round {round}"),
+                            &format!("SQPOLL ring with sq_thread_idle 1 ms, 20 ms without submissions: entry user_data {ud:#x} filled and flushed, needs_wakeup() returned false so no io_uring_enter was issued; not consumed for {} ms; the harness's own io_uring_enter(IORING_ENTER_SQ_WAKEUP) then made it complete after {} us: the poll thread was asleep with IORING_SQ_NEED_WAKEUP set",
+                                (t1 - t0).as_millis(), t1.elapsed().as_micros()));
+                    }
+                    _ => vh::inconclusive("real sqpoll: no completion within 1 s, none after a wakeup from the harness either"),
+                }
+                return;
+            }
+        }
+    }
+    vh::count("real_sqpoll_rounds", rounds);
+    vh::count("real_sqpoll_rounds_wrapper_asked_for_wakeup", said_yes);
+    vh::count("real_sqpoll_rounds_no_wakeup_and_completed", said_no_completed);
+}
+
 pub fn mode_real(seed: u64, ops_per_ring: u64) {
     let mut r = Rng::new(seed ^ 0x5EA1);
     let mut rep = Rep {
         per_sig: BTreeMap::new(),
     };
     let mut tot = Tot::default();
+    real_sqpoll_idle(&mut rep, if ops_per_ring > 1000 { 12 } else { 4 });
     for &req in &[1u32, 2, 3, 4, 5, 6, 7, 8, 9, 12, 24, 33, 100] {
         for flags in [0u32, 6] {
             // at least five laps around the ring
